@@ -194,3 +194,59 @@ Definition parsed_header_line (canon : bytes) (l : bytes) : result (bytes * byte
   | [] => Err InvalidValue
   | _ :: _ => if header_name_matches canon n then header_line true l else Err InvalidType
   end.
+
+(* ---- component value classes, as far as Strict-Transport-Security needs them ---- *)
+(* FieldValueComponentOption.parse_exact_size: the name in any letter case, nothing else *)
+Definition parse_option_component (canon raw : bytes) : result bool :=
+  let n := length canon in
+  if (length raw <? n)%nat then Err (TooMuchData (zlen raw))      (* value False, nothing consumed, then parse_exact_size *)
+  else if negb (bytes_eqb (lower (firstn n raw)) (lower canon)) then Err (TooMuchData (zlen raw))
+  else match skipn n raw with [] => Ok true | r => Err (TooMuchData (zlen r)) end.
+
+Definition is_digit (c : byte) : bool := (48 <=? b2z c) && (b2z c <=? 57).
+Fixpoint span_digits (l : bytes) : bytes * bytes :=
+  match l with
+  | c :: r => if is_digit c then let (a, b) := span_digits r in (c :: a, b) else ([], l)
+  | [] => ([], [])
+  end.
+Definition dec_val (ds : bytes) : Z := fold_left (fun acc c => acc * 10 + (b2z c - 48)) ds 0.
+(* datetime.timedelta(seconds=v) overflows beyond 999999999 days *)
+Definition timedelta_max_seconds : Z := 86399999999999.
+
+(* FieldValueComponentTimeDelta.parse_exact_size on canonical-name "=" value (what _parse_basic_params hands over) *)
+Definition parse_timedelta_component (canon raw : bytes) : result Z :=
+  let n := length canon in
+  if (length raw <? n)%nat then Err InvalidType
+  else if negb (bytes_eqb (lower (firstn n raw)) (lower canon)) then Err InvalidType
+  else match skipn n raw with
+       | [] => Err InvalidValue
+       | c :: r0 =>
+         if negb (Byte.eqb c EQS) then Err InvalidValue
+         else let (ds, r2) := span_digits (skip_sep EQS (c :: r0)) in
+              match ds with
+              | [] => Err InvalidValue
+              | _ => let v := dec_val ds in
+                     if timedelta_max_seconds <? v then Err InvalidValue
+                     else match r2 with [] => Ok v | _ => Err (TooMuchData (zlen r2)) end
+              end
+       end.
+
+(* HttpHeaderFieldValueSTS.parse_exact_size: (max-age in seconds, includeSubDomains, preload) *)
+Definition sts_canon_max_age : bytes := map z2b [109; 97; 120; 45; 97; 103; 101].
+Definition sts_canon_include : bytes := map z2b [105; 110; 99; 108; 117; 100; 101; 83; 117; 98; 68; 111; 109; 97; 105; 110; 115].
+Definition sts_canon_preload : bytes := map z2b [112; 114; 101; 108; 111; 97; 100].
+Definition sts_schema : list fattr :=
+  [ {| fa_canon := sts_canon_max_age; fa_mode := Insens; fa_required := true |};
+    {| fa_canon := sts_canon_include; fa_mode := Insens; fa_required := false |};
+    {| fa_canon := sts_canon_preload; fa_mode := Insens; fa_required := false |} ].
+Definition SEMI : byte := ";"%byte.
+(* the three attributes are parsed in order, each as soon as it is matched, so the first failing one decides the error *)
+Definition sts_parse (l : bytes) : result (Z * bool * bool) :=
+  let* d := nvlist SEMI l in
+  let* (m, d1) := one_attr {| fa_canon := sts_canon_max_age; fa_mode := Insens; fa_required := true |} d in
+  let* ma := match m with Some raw => parse_timedelta_component sts_canon_max_age raw | None => Err InvalidValue end in
+  let* (i, d2) := one_attr {| fa_canon := sts_canon_include; fa_mode := Insens; fa_required := false |} d1 in
+  let* inc := match i with Some raw => parse_option_component sts_canon_include raw | None => Ok false end in
+  let* (p, _) := one_attr {| fa_canon := sts_canon_preload; fa_mode := Insens; fa_required := false |} d2 in
+  let* pre := match p with Some raw => parse_option_component sts_canon_preload raw | None => Ok false end in
+  Ok (ma, inc, pre).
